@@ -167,7 +167,7 @@ Qed.
 Lemma w_ok_out st x : (1 <= w_pc x -> w_g x < length (fracs st)) -> ~ (5 <= w_pc x <= 7) -> w_ok st x.
 Proof. unfold w_ok; intros L N; split; auto. intros R; contradiction. Qed.
 
-Ltac growt := apply grow_setf; intros; unfold nids; simpl; rewrite ?app_length; lia.
+Ltac growt := apply grow_setf; intros; unfold nids, f_ids; simpl; rewrite ?map_length, ?app_length; lia.
 Ltac lenf := unfold setf; simpl; rewrite ?length_upd.
 
 Lemma step_w_iinv c st w : IInv st -> IInv (fst (step_w c st w)).
@@ -194,12 +194,12 @@ Proof.
     apply IInv_w; [assumption | growt | intros ? _; apply idx_ok_same; reflexivity |].
     intros; apply (OUT 4); simpl; auto; lia.
   - (* AppendIDs *) apply IInv_w; [assumption | growt | |].
-    + intros f _ H. unfold idx_ok, nids in *; simpl. eapply Forall_impl; [|exact H].
-      intros t; apply tl_ok_mono. rewrite app_length; lia.
+    + intros f _ H. unfold idx_ok, nids, f_ids in *; simpl. eapply Forall_impl; [|exact H].
+      intros t; apply tl_ok_mono. rewrite !map_length, app_length; lia.
     + intros y EY _. rewrite EX in EY; inversion EY; subst y. split; simpl; [intros _; lenf; apply WR; lia|]. intros _ lid HL.
       apply in_seq in HL. rewrite getf_setf, Nat.eqb_refl; simpl.
       assert (LT : Nat.ltb (w_g x) (length (fracs st)) = true) by (apply Nat.ltb_lt; apply WR; lia).
-      rewrite LT. unfold nids in *; simpl. rewrite app_length, map_length. lia.
+      rewrite LT. unfold nids, f_ids in *; simpl. rewrite map_length in *. rewrite app_length. lia.
   - (* TokenList.Append *) apply IInv_w; [assumption | growt | |].
     + intros f _ H. unfold idx_ok, nids in *; simpl. apply add_toks_ok; auto.
     + intros y EY HY. rewrite EX in EY; inversion EY; subst y. split; simpl; [intros _; lenf; apply WR; lia|]. intros _ lid HL.
@@ -346,7 +346,7 @@ Proof.
              | |- context [match put_order ?a ?b with _ => _ end] => destruct (put_order a b); simpl
              end; auto;
       match goal with |- _ <= nids (getf (setw (setf ?s ?gg ?h) _ _) _) => apply (K h) end;
-      intros; unfold nids; simpl; rewrite ?app_length; lia.
+      intros; unfold nids, f_ids; simpl; rewrite ?map_length, ?app_length; lia.
   - unfold step_snap. destruct (nth_error _ _) as [x|]; simpl; auto. destruct (r_op x); auto.
   - unfold step_sb. destruct (nth_error (rs st) _) as [x|]; simpl; auto.
     destruct (nth_error (c_qs c) _) as [[[qq qf] qt]|]; simpl; auto.
